@@ -24,6 +24,7 @@ def analyse(prop: str, tier: str, root: str | None = None) -> Report:
     rep.info["modules_parsed"] = len(repo.modules)
     rep.info["functions_parsed"] = sum(len(m.functions) for m in repo.modules.values())
     mod.run(repo, rep, tier)
+    rep.enforce_floors()
     if not rep.items:
         raise AnalysisError("no obligations were generated")
     return rep
